@@ -306,8 +306,28 @@ class StmtsMixin:
             # tiny constant iteration spaces are unrolled (e.g. `for m in [market1, market2]`)
             if isinstance(s.iter, (ast.List, ast.Tuple)) and len(s.iter.elts) <= 4:
                 return self.unroll_for(s, st, d)
+            if isinstance(s.iter, ast.Set) and len(s.iter.elts) == 2:
+                return self.unroll_set2(s, st, d)
             raise Unsupported(f"for loop without invariant (line {s.lineno}: for {ast.unparse(s.target)} in {ast.unparse(s.iter)[:50]}) in {self.current}")
         return spec.run_for(self, s, st, d)
+
+    def unroll_set2(self, s, st, d):
+        """`for x in {a, b}`: one iteration if a == b, else two (iteration order of a set of two is unspecified; both orders are explored)"""
+        out = []
+        a_node, b_node = s.iter.elts
+        for s1, a in self.ev(a_node, st, d):
+            for s2, b in self.ev(b_node, s1, d):
+                eqs = self.equals(a, b, s2.copy(), d)
+                if len(eqs) != 1:
+                    raise Unsupported("set literal with a branching equality")
+                same = eqs[0][1]
+                for cond, elems in ((same, [a_node]), (z3.Not(same), [a_node, b_node]), (z3.Not(same), [b_node, a_node])):
+                    s3 = s2.copy(); s3.assume_branch(cond)
+                    if feasible(s3.pc):
+                        fake = ast.copy_location(ast.For(target=s.target, iter=ast.List(elts=elems, ctx=ast.Load()), body=s.body, orelse=[]), s)
+                        ast.fix_missing_locations(fake)
+                        out += self.unroll_for(fake, s3, d)
+        return out
 
     def unroll_for(self, s, st, d):
         states = [(st, "fall", None)]
